@@ -142,9 +142,125 @@ def check_format(tier, seed):
             "bound": "specs 04g,02g,1g,g,d,'' on their digit ranges; str/int on sampled signed ints"}
 
 
+def check_regex(tier, seed):
+    """python re -> z3 regular expressions: fullmatch / match (prefix) / search of the patterns the analysed code uses
+    (SDMX formats and a few generic ones), on strings the library produces, their prefixes, extensions and mutations."""
+    import re
+    rng = random.Random(seed + 5)
+    pats = [r"\d\d\d\d", r"\d\d\d\d-H\d", r"\d\d\d\d-Q\d", r"\d\d\d\d-\d\d", r"\d\d\d\d-\d\d-\d\d", r"\([\-\+]?\d+\)",
+            r"[A-Za-z_]\w*", r"\s*\w+\s*", r"a|bc", r"(ab)+c?", r"x{2,3}", r"[^0-9]+\d"]
+    try:
+        import irispie.dates as D
+        pats += [p.pattern for (_, p) in D.SDMX_REXP_FORMATS.values()]
+    except Exception:
+        pass
+    seeds = ["2020", "2020-H1", "2020-Q4", "2020-05", "2020-05-17", "(12)", "(-3)", "abc_1", " ab ", "a", "bc", "ababc", "xx", "xxxx", "ab1", "", "0001-Q1x", "x2020"]
+    n = 0
+    anything = z3.Star(z3.AllChar(z3.ReSort(z3.StringSort())))
+    for pat in dict.fromkeys(pats):
+        try:
+            rex = L.regex_to_z3(pat)
+        except L.Unsupported:
+            continue
+        cp = re.compile(pat)
+        strings = list(seeds)
+        for _ in range(20 if tier == "quick" else 200):
+            b = rng.choice(seeds)
+            k = rng.randint(0, len(b))
+            strings.append(b[:k] + rng.choice(["", "1", "-", "Q", " ", "a"]) + b[k:])
+        for sx in strings:
+            if "\n" in sx:
+                continue
+            zs = z3.StringVal(sx)
+            for kind, zr in (("fullmatch", rex), ("match", z3.Concat(rex, anything)), ("search", z3.Concat(anything, rex, anything))):
+                got = z3.simplify(z3.InRe(zs, zr))
+                if not (z3.is_true(got) or z3.is_false(got)):
+                    sol = z3.Solver()
+                    sol.set("timeout", 2000)
+                    sol.add(z3.InRe(zs, zr))
+                    got = z3.BoolVal(sol.check() == z3.sat)
+                assert z3.is_true(got) == (getattr(cp, kind)(sx) is not None), (pat, sx, kind)
+                n += 1
+    return {"contract": "regular expressions (libmodels.regex_to_z3): fullmatch, match, search", "cases": n, "exhaustive": False,
+            "bound": "patterns used by irispie.dates plus 12 generic ones; strings the library produces with single-character insertions"}
+
+
+def check_kernels(tier, seed):
+    """The ASSUMED contracts of the numerical kernels (numpy.linalg.solve, scipy.linalg.solve_discrete_lyapunov,
+    daqp.solve) against the real kernels on random well-posed instances: the returned values satisfy the assumed
+    postconditions to floating-point accuracy.  Evidence for the assumptions only."""
+    import numpy as np
+    rng = np.random.default_rng(seed + 23)
+    n = 0
+    reps = 60 if tier == "quick" else 600
+    for _ in range(reps):
+        m = int(rng.integers(1, 5))
+        k = int(rng.integers(1, 4))
+        A = rng.normal(size=(m, m)) + 3 * np.eye(m)
+        b = rng.normal(size=(m, k))
+        X = np.linalg.solve(A, b)
+        assert np.allclose(A @ X, b, atol=1e-8), "linalg.solve: A @ X == b"
+        assert np.array_equal(np.linalg.solve(A, b), X), "linalg.solve: same arguments, same result"
+        b2 = b.copy()
+        b2[0, 0] = np.nan
+        assert np.isnan(np.linalg.solve(A, b2)).any(), "linalg.solve: NaN in, NaN out (no exception)"
+        n += 3
+    try:
+        import scipy.linalg as spl
+        for _ in range(reps):
+            m = int(rng.integers(1, 5))
+            a = rng.normal(size=(m, m))
+            a = 0.9 * a / max(1e-9, max(abs(np.linalg.eigvals(a)))) * rng.uniform(0.1, 1.0)
+            q = rng.normal(size=(m, m))
+            q = q @ q.T
+            X = spl.solve_discrete_lyapunov(a, q)
+            assert np.allclose(X, a @ X @ a.T + q, atol=1e-7 * max(1.0, np.abs(X).max())), "lyapunov: X == a X a' + q"
+            assert np.allclose(X, X.T, atol=1e-8 * max(1.0, np.abs(X).max())), "lyapunov: symmetric for symmetric q"
+            n += 2
+        try:
+            spl.solve_discrete_lyapunov(np.eye(2) * 0.5, np.eye(3))
+            raise AssertionError("lyapunov: shape mismatch must raise")
+        except ValueError:
+            n += 1
+    except ImportError:
+        pass
+    try:
+        import daqp
+        import ctypes
+        for _ in range(reps):
+            m = int(rng.integers(2, 6))
+            r = int(rng.integers(1, 4))
+            L0 = rng.normal(size=(m, m))
+            H = L0 @ L0.T + 0.5 * np.eye(m)
+            f = rng.normal(size=m)
+            A = rng.normal(size=(r, m))
+            mid = A @ rng.normal(size=m)
+            bu = mid + rng.uniform(0.0, 1.0, size=r)
+            bl = mid - rng.uniform(0.0, 1.0, size=r)
+            sense = np.zeros(r, dtype=ctypes.c_int)
+            x, fval, exitflag, info = daqp.solve(H, f, A, bu, bl, sense)
+            assert exitflag > 0, "daqp: success reported on a feasible strictly convex problem"
+            ax = A @ x
+            assert np.all(ax <= bu + 1e-7) and np.all(ax >= bl - 1e-7), "daqp: bounds"
+            g = H @ x + f
+            mu = np.asarray(info["lam"], dtype=float)           # the solver's own multipliers witness the existential in the contract
+            assert np.allclose(A.T @ mu, -g, atol=1e-6 * max(1.0, np.abs(g).max())), "daqp: stationarity H x + f + A' mu == 0"
+            for j in range(r):
+                if mu[j] > 1e-6:
+                    assert abs(ax[j] - bu[j]) <= 1e-6, "daqp: positive multiplier only at the upper bound"
+                if mu[j] < -1e-6:
+                    assert abs(ax[j] - bl[j]) <= 1e-6, "daqp: negative multiplier only at the lower bound"
+            n += 1
+    except ImportError:
+        pass
+    return {"contract": "assumed kernel contracts: numpy.linalg.solve (A X = b, functional, NaN propagates), scipy solve_discrete_lyapunov "
+                        "(fixed point, symmetry, shape errors), daqp.solve (KKT point of the bounded QP)", "cases": n, "exhaustive": False,
+            "bound": "random well-conditioned systems of dimension 1-5"}
+
+
 def run_all(tier, seed):
     out = []
-    for fn in (check_gregorian, check_range, check_format, check_numpy):
+    for fn in (check_gregorian, check_range, check_format, check_numpy, check_regex, check_kernels):
         t0 = time.time()
         try:
             r = fn(tier, seed)
@@ -312,6 +428,28 @@ def check_numpy(tier, seed):
             bx = ~np.all(np.isnan(A), axis=1)
             cases.append(("argmax", lambda: NDArr0(I, N.np_argmax(I, [N.unary(I, __import__("ast").Invert(), N.np_all(I, [N.np_isnan(I, [M], {}, None)], {"axis": 1}, None), None)], {}, None)),
                           lambda: np.array(np.argmax(bx))))
+        # models added for the dense linear algebra and window code
+        cases.append(("flatten_F", lambda: N.flatten(I, M, [], {"order": "F"}, None), lambda: A.flatten(order="F")))
+        cases.append(("flatten_C", lambda: N.flatten(I, M, [], {}, None), lambda: A.flatten()))
+        cases.append(("stack_axis2", lambda: N.np_stack(I, [], {"arrays": (M, M.copy(), M), "axis": 2}, None), lambda: np.stack(arrays=(A, A.copy(), A), axis=2)))
+        cases.append(("stack_axis0", lambda: N.np_stack(I, [(M, M)], {}, None), lambda: np.stack((A, A))))
+        w = rng.randint(1, 3)
+        cases.append(("sliding_window", lambda: N.np_sliding_window_view(I, [M], {"window_shape": w, "axis": 0}, None),
+                      lambda: np.lib.stride_tricks.sliding_window_view(A, window_shape=w, axis=0)))
+        cases.append(("window_sum", lambda: N.np_sum(I, [N.np_sliding_window_view(I, [M], {"window_shape": w, "axis": 0}, None)], {"axis": 2}, None),
+                      lambda: np.sum(np.lib.stride_tricks.sliding_window_view(A, window_shape=w, axis=0), axis=2)))
+        sq = rng.randint(1, 3)
+        Q = np.array([[float(rng.randint(-3, 3)) for _ in range(sq)] for _ in range(sq)])
+        QM = N.coerce(I, Q)
+        pw = rng.randint(0, 3)
+        cases.append(("matrix_power", lambda: N.np_matrix_power(I, [QM, pw], {}, None), lambda: np.linalg.matrix_power(Q, pw)))
+        cases.append(("matmul", lambda: N.matmul(I, QM, N.getattr(I, QM, "T", None), None), lambda: Q @ Q.T))
+        cases.append(("reshape_F", lambda: N.reshape_fortran(I, QM, [-1], {"order": "F"}, None), lambda: Q.reshape(-1, order="F")))
+        cases.append(("eye_diag", lambda: N.binop(I, "+", N.np_eye(I, [sq], {}, None), N.np_diag(I, [N.np_diag(I, [QM], {}, None)], {}, None), None),
+                      lambda: np.eye(sq) + np.diag(np.diag(Q))))
+        if sq > 1:
+            dj = rng.randint(0, sq - 1)
+            cases.append(("delete_col", lambda: N.np_delete(I, [QM, dj], {"axis": 1}, None), lambda: np.delete(Q, dj, axis=1)))
         for name, mf, nf in cases:
             try:
                 want = nf()
@@ -326,7 +464,7 @@ def check_numpy(tier, seed):
             else:
                 assert _same(_concrete_cells(got), _np_cells(np.asarray(want))), (name, A.tolist(), locals().get("pos"), (s0, s1, st))
             n += 1
-    return {"contract": "numpy model (pyvc/ndarray.py): pad, slicing/views, fancy get/set, ix_, hstack, isnan/all/argmax, broadcasting, tile/repeat/reshape", "cases": n,
+    return {"contract": "numpy model (pyvc/ndarray.py): pad, slicing/views, fancy get/set, ix_, hstack, isnan/all/argmax, broadcasting, tile/repeat/reshape, flatten order, stack, sliding windows, matrix_power, matmul, eye/diag/delete", "cases": n,
             "exhaustive": False, "bound": "random arrays up to 4x3 with NaNs, random slices / index lists"}
 
 
